@@ -155,7 +155,7 @@ ClauseIds == {
  "C15.validate", "C15.roundtrip",
  "C16.flags", "C16.bidder_level", "C16.price", "C16.released", "C16.query",
  "C18.accept", "C18.unchanged",
- "C19.frame", "C19.not_due", "C19.terms", "C19.bid_terms", "C19.ids", "C19.independence",
+ "C19.frame", "C19.not_due", "C19.terms", "C19.bid_terms", "C19.ids", "C19.independence", "C19.settle_alone",
  "C17.once", "C17.args", "C17.before", "C17.veto" }
 
 ByProp == [
@@ -176,7 +176,7 @@ ByProp == [
   C16 |-> {"C16.flags", "C16.bidder_level", "C16.price", "C16.released", "C16.query"},
   C17 |-> {"C17.once", "C17.args", "C17.before", "C17.veto"},
   C18 |-> {"C18.accept", "C18.unchanged"},
-  C19 |-> {"C19.frame", "C19.not_due", "C19.terms", "C19.bid_terms", "C19.ids", "C19.independence"} ]
+  C19 |-> {"C19.frame", "C19.not_due", "C19.terms", "C19.bid_terms", "C19.ids", "C19.independence", "C19.settle_alone"} ]
 
 Holds(c, step, g, g2) ==
   LET pre  == step.pre
@@ -504,6 +504,9 @@ Holds(c, step, g, g2) ==
         LET alone == [pre EXCEPT !.bids = [j \in 1..nPre |-> IF j = tgt THEN pre.bids[j] ELSE <<>>],
                                  !.allowed = [j \in 1..nPre |-> IF j = tgt THEN pre.allowed[j] ELSE ZeroU]]
         IN ok <=> (Accept(alone, m) /\ ~Vetoed(pre, m))
+  [] c = "C19.settle_alone" -> \A i \in 1..nPre : SettledB(i) =>
+        \* what a bidder receives is decided by this auction's own bids and allow-list only
+        \A u \in Bidders(i) : Got(i, u) = (IF SoldI(i) THEN DemandU(pre.bids[i], pre.allowed[i], u, CP(i)) ELSE 0)
   [] c = "C19.ids" ->
         /\ nPost >= nPre
         /\ \A j \in (nPre + 1)..nPost : \A k \in 1..nPre : post.auctions[j].id > pre.auctions[k].id
